@@ -150,6 +150,10 @@ def run(ctx, model=None):
     for k in range(6 if ctx.quick() else 100):
         check_case(ctx, gen.with_odd_labels(gen.stopping_game(rng), rng)[0], model)
         check_case(ctx, gen.with_odd_labels(gen.layered_tie_game(rng), rng)[0], model)
+    for _k in range(10 if ctx.quick() else 300):
+        _g = gen.decimal_tie_game(rng)
+        if len(_g["transition_list"][2]) == 3:            # the exact-tie variants (not the one-ulp-apart one)
+            check_case(ctx, _g, model)
     _envg = [gen.decimal_tie_game(rng, k_) for k_ in (P1, P2, P1, P2)] + [tie_game(rng) for _ in range(3)] + \
         [gen.stopping_game(rng) for _ in range(3 if ctx.quick() else 40)] + [gen.all_dead_game(rng)]
     _an0.environment_independence(ctx, _envg, "strategies-independent-of-process-environment", fields=[1, 3])
